@@ -2,9 +2,9 @@ SPECIFICATION Spec
 CONSTANTS
   Shapes = {"full", "cand", "rejected", "empty"}
   MaxTampers = 2
-  TamperSet = {"ops_drop", "ops_dup", "ops_alter", "ops_extra", "ops_foreign_tree", "ops_item_dropped", "sts_missing", "sts_extra", "sts_alter", "sts_foreign_tree", "sts_height", "proposal_other", "proposal_height", "vps_other_block", "vps_other_round", "avp_other_newblock", "avp_draw", "checksum", "map_unsigned"}
+  TamperSet = {"ops_drop", "ops_dup", "ops_alter", "ops_extra", "ops_foreign_tree", "ops_item_dropped", "sts_missing", "sts_extra", "sts_alter", "sts_foreign_tree", "sts_height", "proposal_other", "proposal_height", "vps_other_block", "vps_other_round", "ivp_prev", "ivp_next", "ivp_round", "avp_prev", "avp_next", "avp_other_newblock", "avp_draw", "checksum", "map_unsigned"}
   AllOrders = FALSE
   OrderSet <- OrdersThorough
-INVARIANTS HonestStorable TampersBreak ChecksumsKept OrderIndependent ImporterChecks
+INVARIANTS HonestStorable TampersBreak ChecksumsKept OrderIndependent ImporterChecks FactsAgree
 VIEW View
 CHECK_DEADLOCK FALSE
